@@ -96,6 +96,11 @@ def net_seams(lines=("server", "client", "pool")):
         js.fcntl = None
         _shim_time(jc)
         _shim_time(js)
+        import threading as _real_threading
+
+        for m in (jc, js):
+            if getattr(m, "threading", None) is _real_threading:
+                m.threading = simthreading.module()
         _done["net"] = True
     mods = []
     if "server" in lines and "server-lines" not in _done:
@@ -126,3 +131,47 @@ def tree_id():
                 h.update(name.encode())
                 h.update(fh.read())
     return h.hexdigest()[:16]
+
+
+_code_cache = {}
+
+
+def cold_start():
+    """
+    Re-executes the repository's modules, so that whatever they keep at module or class level is back to its
+    import-time state (first-use windows - lazily built caches, templates - exist once per process otherwise),
+    then binds the seams again.
+    """
+    import importlib
+    from . import core
+
+    repo()
+    names = ["jsonrpclib.config", "jsonrpclib.utils", "jsonrpclib.jsonlib", "jsonrpclib.history", "jsonrpclib.jsonclass",
+             "jsonrpclib.jsonrpc", "jsonrpclib.threadpool", "jsonrpclib", "jsonrpclib.SimpleJSONRPCServer"]
+    wanted = [k for k in ("pool-lines", "server-lines", "client-lines", "jsonclass-lines") if k in _done]
+    for n in names:
+        m = sys.modules.get(n)
+        if m is not None:
+            # what importlib.reload() does - the module's code executed again in its own namespace - with the
+            # compiled code kept for the next time (compilation is nine tenths of the cost of a reload)
+            code = _code_cache.get(n)
+            if code is None:
+                with open(m.__file__, "rb") as fh:
+                    code = _code_cache[n] = compile(fh.read(), m.__file__, "exec")
+            exec(code, m.__dict__)
+            core._instrumented.discard(n)
+    for k in ("pool", "net", "pool-lines", "server-lines", "client-lines", "jsonclass-lines"):
+        _done.pop(k, None)
+    lines = []
+    if "server-lines" in wanted:
+        lines.append("server")
+    if "client-lines" in wanted:
+        lines.append("client")
+    if "jsonclass-lines" in wanted:
+        lines.append("jsonclass")
+    if "pool-lines" in wanted:
+        lines.append("pool")
+    if "server-lines" in wanted or "client-lines" in wanted:
+        net_seams(lines=tuple(lines))
+    else:
+        pool_seams(lines="pool" in lines)
